@@ -62,7 +62,7 @@ def plan(tier, seed):
             specs.append({'name': name, 'lo': p * n // parts, 'hi': (p + 1) * n // parts})
     for k in range(3 if tier == 'quick' else 18):
         specs.append({'name': 'pipeline', 'index': k})
-    for k in range(4 if tier == 'quick' else 16):
+    for k in range(8 if tier == 'quick' else 32):
         specs.append({'name': 'pipeline', 'index': k, 'title': True})
     return specs
 
